@@ -452,38 +452,6 @@ func main() {
 	r.OutcomeN("checksum_neighbourhood_rejected", near.rej)
 	r.OutcomeN("checksum_neighbourhood_accepted", near.acc)
 
-	fullDone := false
-	if r.Thorough() {
-		// all 32^6 checksums of the shortest base string: exactly one may be accepted
-		bs := bases[0]
-		n := len(bs)
-		var full tally
-		r.ParFor(1<<15, func(hi int) {
-			if r.Expired() {
-				return
-			}
-			b := []byte(bs)
-			var t tally
-			for k := 0; k < 3; k++ {
-				b[n-6+k] = charset[(hi>>uint(5*k))&31]
-			}
-			for lo := 0; lo < 1<<15; lo++ {
-				for k := 0; k < 3; k++ {
-					b[n-3+k] = charset[(lo>>uint(5*k))&31]
-				}
-				s := string(b)
-				agree("any-checksum", s, s != bs, &t)
-			}
-			full.mu.Lock()
-			full.acc += t.acc
-			full.rej += t.rej
-			full.mu.Unlock()
-		})
-		fullDone = !r.Capped()
-		r.OutcomeN("all_checksums_accepted", full.acc)
-		r.OutcomeN("all_checksums_rejected", full.rej)
-	}
-
 	// ---- E. all 5-bit symbol sequences with a correct checksum ----------------------------------------------------
 	maxSym := 3
 	if r.Thorough() {
@@ -538,6 +506,39 @@ func main() {
 	}
 	if _, err := crypto.AddressFromBech32(""); err == nil {
 		fail("address:accept-mismatch", "", "empty string accepted")
+	}
+
+	// (last, because it is the only part that may hit the budget cap)
+	fullDone := false
+	if r.Thorough() {
+		// all 32^6 checksums of the shortest base string: exactly one may be accepted
+		bs := bases[0]
+		n := len(bs)
+		var full tally
+		r.ParFor(1<<15, func(hi int) {
+			if r.Expired() {
+				return
+			}
+			b := []byte(bs)
+			var t tally
+			for k := 0; k < 3; k++ {
+				b[n-6+k] = charset[(hi>>uint(5*k))&31]
+			}
+			for lo := 0; lo < 1<<15; lo++ {
+				for k := 0; k < 3; k++ {
+					b[n-3+k] = charset[(lo>>uint(5*k))&31]
+				}
+				s := string(b)
+				agree("any-checksum", s, s != bs, &t)
+			}
+			full.mu.Lock()
+			full.acc += t.acc
+			full.rej += t.rej
+			full.mu.Unlock()
+		})
+		fullDone = !r.Capped()
+		r.OutcomeN("all_checksums_accepted", full.acc)
+		r.OutcomeN("all_checksums_rejected", full.rej)
 	}
 
 	var names []string
